@@ -400,7 +400,7 @@ theorem C08_step_frame {w : World} {lid : Nat} {k : Nat × Nat} {l : Listing} (o
        ((∃ c f bid, op = .exec c f (.buy lid bid) ∧ k' = (c, lid) ∧ l'.creator = c ∧
            l'.claimant = some c) ∧ l.status = .finalized ∧ l'.status = .closed)) := by
   unfold step
-  rcases stepF_mkt_cases noFault w op with h | ⟨c, f, msg, out, ho, _, _, hx⟩
+  rcases stepF_mkt_casesF noFault w op with h | ⟨c, f, msg, out, ho, _, _, hx⟩
   · rw [h]
     exact .inr ⟨k, l, hfind, rfl, rfl, rfl, rfl, rfl, Nat.le_refl _, .inl ⟨rfl, rfl⟩⟩
   · rcases C08_frame hI hfind hst hx with h | ⟨k', l', h1, h2, h3, h4, h5, h6, h7, h8⟩
@@ -450,7 +450,7 @@ theorem C08_step_when_removed {w : World} {lid : Nat} {k : Nat × Nat} {l : List
       ∃ f, op = .exec l.creator f (.deleteListing lid)) ∨
     (l.status = .closed ∧ ∃ c f, op = .exec c f (.withdrawPurchased lid) ∧ l.claimant = some c) := by
   unfold step at hgone
-  rcases stepF_mkt_cases noFault w op with h | ⟨c, f, msg, out, ho, _, _, hx⟩
+  rcases stepF_mkt_casesF noFault w op with h | ⟨c, f, msg, out, ho, _, _, hx⟩
   · rw [h, hfind] at hgone; cases hgone
   · rcases C08_when_removed hI hwf hfind hst hx hgone with
       ⟨hs, hexp, hmsg, hown⟩ | ⟨hs, hmsg, hcl⟩
@@ -515,7 +515,7 @@ theorem C08_run_monotone
     intro w hI hk
     refine ih _ (step_idsInv hpres op hI) ?_
     unfold step
-    rcases stepF_mkt_cases noFault w op with h | ⟨c, f, msg, out, _, _, _, hx⟩
+    rcases stepF_mkt_casesF noFault w op with h | ⟨c, f, msg, out, _, _, _, hx⟩
     · rw [h]; exact hk
     · exact hk.execute hI hx
 
@@ -530,7 +530,7 @@ theorem C08_run_gone {w : World} {lid : Nat} (hnone : findById lid w.mkt.listing
     have hstep : findById lid (step w op).1.mkt.listings = none ∧
         lid ∈ (step w op).1.mkt.listingUsed := by
       unfold step
-      rcases stepF_mkt_cases noFault w op with h | ⟨c, f, msg, out, _, _, _, hx⟩
+      rcases stepF_mkt_casesF noFault w op with h | ⟨c, f, msg, out, _, _, _, hx⟩
       · rw [h]; exact ⟨hnone, hused⟩
       · exact C08_gone_forever hnone hused hx
     exact ih hstep.1 hstep.2
@@ -554,7 +554,7 @@ theorem C08_run_gone_stays
     | cons op ops ih =>
       refine ih (step_idsInv hpres op hI) ?_
       unfold step
-      rcases stepF_mkt_cases noFault w op with h | ⟨c, f, msg, out, _, _, _, hx⟩
+      rcases stepF_mkt_casesF noFault w op with h | ⟨c, f, msg, out, _, _, _, hx⟩
       · rw [h]; exact hused
       · exact mchange_used (execute_mchange hx) lid hused
   rw [run_append]
